@@ -290,6 +290,34 @@ Theorem generated_column_names_ci : forall lower rq_columns cols n l n',
 Proof. exact (column_ci_status cprefix true True I). Qed.
 Print Assumptions generated_column_names_ci.
 
+(* ---- which names reach a split.  The hypothesis of generated_column_names_ci_fresh as a decidable check (it is evaluated
+   on every real anchor_split call by the correspondence run): every incoming name is a name whose lower-cased form is
+   reserved, or is spelled like a generated name *)
+Theorem generated_column_names_ci_checked : forall lower p reserved, (forall k, lower (gen_name p k) = gen_name p k) ->
+  forall cols n l n',
+  incoming_ok lower p reserved cols = true ->
+  split_names lower p reserved cols [] n = Some (l, n') ->
+  forall x y, In x (somes l) -> In y (somes l) -> ((exists k, x = gen_name p k) /\ ~ In (lower x) reserved) -> x <> y -> lower x <> lower y.
+Proof. exact split_names_ci_checked. Qed.
+Print Assumptions generated_column_names_ci_checked.
+
+(* FULL STATEMENT without a hypothesis about the incoming names: the names the anchor context holds (column_names,
+   column_decls) get there by four kinds of operations -- names of the RQ are loaded (QueryLoader / create_relation_instance /
+   load_names: exactly the names whose lower-cased form is reserved), ensure_column_name, anchor_split, translate_select_item's
+   alias -- and an operation mentions only names the context already holds.  For EVERY such sequence of operations, from
+   every context of RQ / generated names (in particular the empty one) and every generator state: every name the context
+   ever holds is a name of the RQ or a generated name, and in EVERY anchor_split of the sequence a generated name differs
+   case-insensitively from every other name of the split *)
+Theorem column_names_context_invariant : forall lower p reserved, (forall k, lower (gen_name p k) = gen_name p k) ->
+  forall ops known n known' n' splits,
+  (forall u, In u known -> name_class_ok lower p reserved u = true) ->
+  run_ops lower p reserved known n ops = Some (known', n', splits) ->
+  (forall u, In u known' -> name_class_ok lower p reserved u = true) /\
+  forall l, In l splits -> forall x y, In x (somes l) -> In y (somes l) ->
+    ((exists k, x = gen_name p k) /\ ~ In (lower x) reserved) -> x <> y -> lower x <> lower y.
+Proof. exact run_ops_invariant. Qed.
+Print Assumptions column_names_context_invariant.
+
 (* ---------------------------------------------------------------- non-vacuity *)
 Example c09_ex_bare : emit {| iq := 34; always_quoted := false; extra_kw := [] |} [97; 95; 49] = [97; 95; 49].            (* a_1 *)
 Proof. vm_compute. reflexivity. Qed.
@@ -314,6 +342,14 @@ Proof. vm_compute. reflexivity. Qed.
 (* ... the split repairs it: user column _expr_0 first, then the computed one, then a second column named _expr_0 *)
 Example c09_ex_split : split_names lower_ascii cprefix [] [(DSingle (Some (gen_name cprefix 0)), None); (DCompute, None); (DWild, None); (DSingle (Some (gen_name cprefix 0)), None)] [] 0
                        = Some ([Some (gen_name cprefix 0); Some (gen_name cprefix 1); None; Some (gen_name cprefix 2)], 3).
+Proof. vm_compute. reflexivity. Qed.
+(* a trace: the RQ names k, _EXPR_0 are loaded, a sort key is named, the split renames the duplicate k *)
+Example c09_ex_trace :
+  run_ops lower_ascii cprefix (code_col_reserved true lower_ascii [[107]; upper_ascii cprefix ++ [48]]) [] 0
+    [OpLoad [[107]; upper_ascii cprefix ++ [48]]; OpEnsure DCompute None;
+     OpSplit [(DSingle (Some [107]), None); (DSingle (Some [107]), Some [107]); (DSingle (Some (upper_ascii cprefix ++ [48])), None); (DCompute, Some (gen_name cprefix 1))]]
+  = Some ([[107]; gen_name cprefix 2; upper_ascii cprefix ++ [48]; gen_name cprefix 1; gen_name cprefix 1; [107]; upper_ascii cprefix ++ [48]], 3,
+          [[Some [107]; Some (gen_name cprefix 2); Some (upper_ascii cprefix ++ [48]); Some (gen_name cprefix 1)]]).
 Proof. vm_compute. reflexivity. Qed.
 Example c09_ex_alias : select_item_alias lower_ascii cprefix [] [gen_name cprefix 0; gen_name cprefix 1] 0 = Some (gen_name cprefix 2, 3).
 Proof. vm_compute. reflexivity. Qed.
